@@ -31,6 +31,7 @@ import (
 	"fmt"
 	"math/big"
 	"os"
+	"runtime"
 	"runtime/pprof"
 	"sort"
 	"strings"
@@ -988,10 +989,13 @@ const (
 	scaleFine = 1 << 20 // a batch is flushed after every Put
 )
 
+// boot initialises what the account layer needs outside itself: the loggers (the storage-trie
+// error path logs through common.DefaultLogger) and the fork table.  The chain, pool and LevelDB
+// singletons of the node are not needed: the account database under test sits on the recorder.
 func boot() {
-	if err := node.Boot(node.ForksAllOn, false); err != nil {
-		panic(err)
-	}
+	common.Init(0, "1.ini", "dev")
+	node.ForksAllOn(&common.LocalChainConfig)
+	account.Init()
 	common.SetBlockHeight(2)
 }
 
@@ -1049,11 +1053,6 @@ func minimise(v viol, find func(h History) []viol) viol {
 
 func run(c *fw.Ctx) {
 	boot()
-	if pf := os.Getenv("VERIF_C03_PROF"); pf != "" {
-		f, _ := os.Create(pf)
-		pprof.StartCPUProfile(f)
-		defer pprof.StopCPUProfile()
-	}
 	ts := templates(c.Thorough())
 	maxBig := 1
 	if c.Thorough() {
@@ -1131,6 +1130,14 @@ func run(c *fw.Ctx) {
 		}
 		return true
 	})
+	{
+		var ms runtime.MemStats
+		runtime.ReadMemStats(&ms)
+		fmt.Fprintf(os.Stderr, "MEM heapInuse=%dMB heapSys=%dMB sys=%dMB numGC=%d heapObjects=%d\n", ms.HeapInuse>>20, ms.HeapSys>>20, ms.Sys>>20, ms.NumGC, ms.HeapObjects)
+		f, _ := os.Create("heap.prof")
+		pprof.WriteHeapProfile(f)
+		f.Close()
+	}
 	if capped {
 		c.Cap("time budget: not all (history, granularity) units were examined")
 	}
@@ -1146,6 +1153,43 @@ func run(c *fw.Ctx) {
 	}
 }
 
+// describeLog prints the physical write sequence of a fault-free run (replay aid).
+func describeLog(tr *trace) {
+	isCode := map[string]string{}
+	for n, c := range codes {
+		isCode[string(crypto.Keccak256(c))] = n
+	}
+	isRoot := map[string]int{}
+	for i, r := range tr.roots {
+		isRoot[string(r[:])] = i
+	}
+	for i, e := range tr.rec.log {
+		var parts []string
+		for j, x := range e.kvs {
+			if j == 12 {
+				parts = append(parts, fmt.Sprintf("... %d more", len(e.kvs)-j))
+				break
+			}
+			what := "node"
+			if n, ok := isCode[x.k]; ok {
+				what = "code:" + n
+			} else if b, ok := isRoot[x.k]; ok {
+				what = fmt.Sprintf("STATE-ROOT(block %d)", b)
+			}
+			if x.del {
+				what = "DELETE"
+			}
+			parts = append(parts, fmt.Sprintf("%x=%s/%dB", x.k[:3], what, len(x.v)))
+		}
+		fmt.Printf("  write %d (block %d, %s, %d pairs): %s\n", i+1, e.block, e.kind, len(e.kvs), strings.Join(parts, " "))
+		if i == 60 {
+			fmt.Printf("  ... %d more writes\n", len(tr.rec.log)-i-1)
+			break
+		}
+	}
+	fmt.Printf("  acknowledged after write: %v\n", tr.ack)
+}
+
 func replay(c *fw.Ctx, raw json.RawMessage) {
 	var cs Case
 	if err := json.Unmarshal(raw, &cs); err != nil {
@@ -1154,6 +1198,7 @@ func replay(c *fw.Ctx, raw json.RawMessage) {
 	boot()
 	var s stats
 	var vs []viol
+	describeLog(runHistory(cs.History, cs.Scale, -1, cs.MapVar))
 	if cs.Mode == "fault" {
 		tr := runHistory(cs.History, cs.Scale, -1, cs.MapVar)
 		vs, _ = checkFaults(cs.History, cs.Scale, cs.MapVar, len(tr.rec.log), &s, func() bool { return false })
